@@ -18,7 +18,7 @@ ASSUMPTIONS = ['agreement is not correctness: a common-mode error is invisible h
 BUDGET = {'quick': 170, 'thorough': 1500}
 CHUNK = {'quick': 6, 'thorough': 20}
 CASE_TIMEOUT = 300
-REQUIRED = ['graphs_edited_in_place_after_earlier_calls', 'multigraph_inputs', 'familyA_compared', 'familyB_compared', 'familyB_discrete_compared', 'familyC_SIR_compared', 'familyC_SIS_compared', 'familyD_SIR_compared',
+REQUIRED = ['node_level_models_with_shuffled_nodelist', 'graphs_edited_in_place_after_earlier_calls', 'multigraph_inputs', 'familyA_compared', 'familyB_compared', 'familyB_discrete_compared', 'familyC_SIR_compared', 'familyC_SIS_compared', 'familyD_SIR_compared',
             'familyD_SIS_compared', 'pairs_compared']
 
 
@@ -139,15 +139,29 @@ def run_case(case):
         ncomp = 3
     elif fam in ('C_SIR', 'C_SIS'):
         m = fam[2:]
+        rr = random.Random(case['seed'] + 7)
         for nm in ['%s_heterogeneous_pairwise_from_graph', '%s_compact_pairwise_from_graph', '%s_pair_based', '%s_homogeneous_pairwise_from_graph']:
             nm = nm % m
-            call(nm, getattr(EoN, nm), G, tau, gamma, rho=rho, **tk)
+            extra = {}
+            if nm.endswith('pair_based') and case['seed'] % 2:
+                # node-level models take the order of their per-node output from `nodelist`: any order describes the same model
+                nl = list(G)
+                rr.shuffle(nl)
+                extra['nodelist'] = nl
+                bump(res, 'node_level_models_with_shuffled_nodelist')
+            call(nm, getattr(EoN, nm), G, tau, gamma, rho=rho, **dict(tk, **extra))
         ncomp = 3 if m == 'SIR' else 2
     else:
         m = fam[2:]
         for nm in ['%s_heterogeneous_meanfield_from_graph', '%s_individual_based', '%s_homogeneous_meanfield_from_graph']:
             nm = nm % m
-            call(nm, getattr(EoN, nm), G, tau, gamma, rho=((1.0 / N) if (rho is None and 'individual' in nm) else rho), **tk)   # individual_based: rho required
+            extra = {}
+            if 'individual' in nm and case['seed'] % 2:
+                nl = list(G)
+                random.Random(case['seed'] + 7).shuffle(nl)
+                extra['nodelist'] = nl
+                bump(res, 'node_level_models_with_shuffled_nodelist')
+            call(nm, getattr(EoN, nm), G, tau, gamma, rho=((1.0 / N) if (rho is None and 'individual' in nm) else rho), **dict(tk, **extra))   # individual_based: rho required
         ncomp = 3 if m == 'SIR' else 2
     for label, e in errs.items():
         if e == 'warn':
